@@ -21,7 +21,7 @@ MODEL_NEEDS_IMPL = True
 SHARD = 24
 SIZES = {'quick': 420, 'thorough': 4200, 'search': 1800}
 _R4 = "; round-four features, each in about 1/3 of the problems and from its own forked random stream: 2-4 extra jobs with REPLACEMENT tasks (also mixed with pickups / services / shipments), REQUIRED breaks (exact time or offset interval, 1-2 per shift, on shifts without optional breaks and reloads; documents show them as break activities inside a stop or as stops without location), VICINITY CLUSTERING (plan.clustering with the vehicles' profile, visiting continue / return, serving original with parking 0-10, thresholds taken from the matrix, 3-5 extra single-task jobs at a pair of near locations; not together with breaks, reloads, errorCodes or general routing data)"
-_R5 = '; round-five features, each from its own forked random stream: RECHARGE STATIONS in about 1/3 of the problems without required breaks / clustering (recharges.maxDistance = the length of a random 2-4 leg walk from the shift start, so that tours exactly at the limit occur; 1-3 stations per shift with location, duration 0-15, sometimes a time window / tag; combined with reloads, optional breaks, capacity dimensions, errorCodes, general routing data), SHARED RELOAD RESOURCES in about 2/3 of the problems with reloads (fleet.resources with 1-2 small capacity vectors, resourceId on about 3/4 of the reloads of all shifts)'
+_R5 = '; round-five features, each from its own forked random stream: RECHARGE STATIONS in about 1/3 of the problems without required breaks / clustering (recharges.maxDistance = the length of a random 2-4 leg walk from the shift start, so that tours exactly at the limit occur; 1-3 stations per shift with location, duration 0-15, sometimes a time window / tag; combined with reloads, optional breaks, capacity dimensions, errorCodes, general routing data), SHARED RELOAD RESOURCES in about 2/3 of the problems with reloads (fleet.resources with 1-2 small capacity vectors, resourceId on about 3/4 of the reloads of all shifts), REQUIRED breaks on shifts that also have reloads in about half of the remaining problems with reloads (start.latest = start.earliest)'
 RULE = ('cases: generated pragmatic problems (3-10 jobs: deliveries, pickups, services, shipments, multi jobs; 1-2 places / windows; '
         '1-3 vehicle types x 1-2 ids x 1-2 shifts, open and closed ends; capacity, skills, maxDistance / maxDuration / tourSize limits; '
         'additive features, each in about 1/3 of the problems and freely combined: job compatibility classes mixed with plain jobs, job '
@@ -100,6 +100,25 @@ def reload_bridges(c, doc, k, i):
         u, w = locs[i - 1], locs[i]
         return any(err[u * n + r['location']['index']] <= 0 and err[r['location']['index'] * n + w] <= 0
                    for r in sh.get('reloads') or [])
+    except Exception:  # noqa
+        return False
+
+
+def recharge_bridges(c, doc, k, i):
+    """the leg arriving at flattened activity i of tour k of `doc` joins two activities between which a RECHARGE STATION of the tour's
+    vehicle shift would fit (both of its legs reachable): recharge markers are reload-style markers of the same RouteIntervals machinery,
+    and remove_trivial_markers takes one out of the tour (tour.remove_activity_at, no constraint evaluated) when its interval became
+    obsolete - also at the end of a pure construction (round five: stations are even inserted into EMPTY tours first, see C02-F5)"""
+    try:
+        t = doc['tours'][k]
+        m = c['matrices'][0]
+        err, n = m.get('errorCodes') or [], e2e.matrix_size(m)
+        locs = [(a.get('location') or st['location'])['index'] for st in t['stops'] for a in st['activities']]
+        vt = e2e.vehicle_type_of(c, t)
+        sh = vt['shifts'][t.get('shiftIndex', 0)]
+        u, w = locs[i - 1], locs[i]
+        return any(err[u * n + r['location']['index']] <= 0 and err[r['location']['index'] * n + w] <= 0
+                   for r in (e2e.shift_recharges(sh) or {}).get('stations') or [])
     except Exception:  # noqa
         return False
 
@@ -238,6 +257,9 @@ def oracle_model(c, impl, model):
                 elif t[0] == 'FUnreachable' and break_bridges(c, doc, t[1], t[2]):
                     # likewise: a break that remove_invalid_breaks took out of the tour was between the two ends
                     cls = 'unreachable-leg-where-a-removed-break-fits'
+                elif t[0] == 'FUnreachable' and recharge_bridges(c, doc, t[1], t[2]):
+                    # likewise: a recharge marker that remove_trivial_markers took out of the tour was between the two ends
+                    cls = 'unreachable-leg-where-a-removed-recharge-marker-fits'
                 else:
                     cons_bad = cons_bad or t[0] == 'FUnreachable'
                 out.append({'class': cls,
@@ -245,7 +267,8 @@ def oracle_model(c, impl, model):
     else:
         # no Coq verdict on the construction documents at hand (caller evaluated valid_b on the returned one only): python twin
         cons = [[('FUnreachable',) + x for x in e2e.unreachable_legs(c, d)
-                 if not reload_bridges(c, d, x[0], x[1]) and not break_bridges(c, d, x[0], x[1])] for _, d in docs]
+                 if not reload_bridges(c, d, x[0], x[1]) and not break_bridges(c, d, x[0], x[1])
+                 and not recharge_bridges(c, d, x[0], x[1])] for _, d in docs]
         cons_bad = any(cons)
     for t in e2e.coq_viols(main, 'P'):
         if t[0] == 'PRouting':
@@ -506,6 +529,9 @@ MANIFEST_TEXT = ('Machine-checked proof (Coq, no axioms) over the executable mod
                  'across the reload): checker proved sound and complete for the declarative statement, and equal to the single-interval '
                  'simulation of the step theorems for tours without reloads.')
 MANIFEST_NOTE = ('Trusted: Coq kernel + vm_compute; JSON->Gallina rendering and the rebuilding of activities from the document; harness. '
-                 'The tie between the evaluator model and the code is the C06 correspondence (run by `./check C06`). Not covered: breaks, '
-                 'recharge, relations/locks, clustering, time-dependent routing, reload resources, objectives override; real interleavings only sampled.')
+                 'The tie between the evaluator model and the code is the C06 correspondence (run by `./check C06`). The end-to-end oracle also '
+                 'covers optional and required breaks, relations, vicinity clustering, general (time-dependent) routing data, recharge stations '
+                 '(distance between recharges: checker proved sound and complete) and shared reload resources (total static deliveries loaded per '
+                 'resource and dimension: checker proved sound and complete). Not covered: objectives override, relations naming break / reload / '
+                 'recharge, non-integer scales; real interleavings only sampled.')
 MANIFEST_TECHNIQUE = 'Coq proof (feasibility invariant over insertion/removal histories) + verified feasibility checker run on real solver output'
